@@ -53,10 +53,11 @@ def run_stream_via_file(items, kind, rng, step=7):
     records = gen.events_to_records(events)
     data = wire.v2_file([], 8, records) if kind == 'v2' else \
         wire.V3Spec(entries=[], chunks=gen.split_chunks(rng, records, rng.choice((1, 2, 3, 5)))).build()
-    p = PyKdebugParser()
+    from vlib import stream
+    p = stream.front_end(rng)          # time base, zone, columns, colour set at random: presentation only
     per = {}
     try:
-        for t in p.traces(io.BytesIO(data)):
+        for t in p.traces(wire.stream(data)):
             per.setdefault(t.ktraces[0].tid, []).append(trace_key(t))
     except Exception as x:
         return per, dict(p.pids_names), x
@@ -161,7 +162,8 @@ def check_set(res, ctx, rng, programs, tids, n_random=None):
     baselines, base_names = {}, {}
     # the time base is coarse: in a third of the sets every record of the capture carries the same timestamp (then any
     # interleaving is a legal merge of the per-CPU buffers); the same timestamps are used for the baselines
-    step = 0 if rng.random() < 0.33 else 7
+    # (... or 7 ticks apart, or hours apart: a capture of a quiet machine)
+    step = rng.choice((0, 7, 7, 10 ** 11))
     if step == 0:
         res.count('program_sets_on_one_tick')
     for p, tid in zip(programs, tids):
